@@ -18,8 +18,8 @@ import (
 
 	rcrypto "github.com/rigochain/rigo-go/types/crypto"
 	tmsecp "github.com/tendermint/tendermint/crypto/secp256k1"
-	tmproto "github.com/tendermint/tendermint/proto/tendermint/types"
 	tmjson "github.com/tendermint/tendermint/libs/json"
+	tmproto "github.com/tendermint/tendermint/proto/tendermint/types"
 	tmtypes "github.com/tendermint/tendermint/types"
 
 	"verifsim/chain"
